@@ -1,0 +1,30 @@
+//go:build verif
+
+package s3db
+
+import (
+	"github.com/jrhy/mast"
+	"github.com/jrhy/s3db/kv"
+	"github.com/jrhy/s3db/kv/crdt"
+)
+
+// VerifS3Factory, when set by a verification harness, may replace the S3
+// client chosen by OpenKV. Only compiled with the "verif" build tag.
+var VerifS3Factory func(opts S3Options) kv.S3Interface
+
+func verifS3(opts S3Options, c kv.S3Interface) kv.S3Interface {
+	if f := VerifS3Factory; f != nil {
+		if hc := f(opts); hc != nil {
+			return hc
+		}
+	}
+	return c
+}
+
+// Exports of unexported functions for function-level properties.
+
+func VerifMarshalNode(n mast.Node) ([]byte, error) { return marshalProto(n) }
+
+func VerifUnmarshalNode(b []byte, n *mast.Node) error { return unmarshalProto(b, n) }
+
+func VerifMergeValues(a, b crdt.Value) crdt.Value { return mergeValues(nil, a, b) }
